@@ -44,7 +44,9 @@ func (w *World) CallFrom(kind string, from *sim.Account, pc string, to common.Ad
 func (w *World) RegisterToken(n int) *Step {
 	a0 := w.Assets[0]
 	addr := common.HexToAddress(fmt.Sprintf("0x%040x", 0x700000+n))
-	oinfo := fmt.Sprintf("NTK%d,Ethereum,8", n)
+	// the optional fields of the oracle description: feeder interval (absent, explicit 0 = "use the default", empty,
+	// explicit values that Params.Validate would accept), contract address, descriptions
+	oinfo := fmt.Sprintf("NTK%d,Ethereum,8", n) + []string{",0", "", ",7", ",", ",30,0x00000000000000000000000000000000000000aa", ",0,,tokenDesc:{a new token}", ",300"}[(n/2)%7]
 	if cfg := w.C.Gen.Cfg.Assets; n%2 == 0 && len(cfg) > 0 && cfg[0].HasOracle {
 		// a second asset priced by a price token the oracle already knows (the first genesis asset's)
 		oinfo = "TK0,Ethereum,8"
